@@ -824,3 +824,85 @@ func VfProvideDeadline() {
 }
 
 var _ = vfRegister("VfProvideDeadline", VfProvideDeadline)
+
+// VfCorrectivePuts (C06): one peer more than the bucket size, some dead: after a
+// completed value search the corrective puts reach live peers of the result - a
+// dead peer among the nearest does not use up the place of a live one.
+func VfCorrectivePuts() {
+	P := vfParam("P")
+	K := P - 1
+	vfHashBits(vfParam("W"))
+	vfHashFixed()
+	e, ids, _ := vfClientEnv(K, P)
+	d := e.dht
+	key := string(vfHashInput("key", []byte("/vf/"), 4))
+	ctx := context.Background()
+	dead := map[peer.ID]bool{}
+	hasBest := map[peer.ID]bool{}
+	answered := map[peer.ID]bool{}
+	puts := map[peer.ID]int{}
+	e.sender.reply = func(_ context.Context, p peer.ID, req *pb.Message) (*pb.Message, error) {
+		switch req.Type {
+		case pb.Message_GET_VALUE:
+			if _, ok := dead[p]; !ok {
+				dead[p] = vfBool("peer.isDead")
+				if !dead[p] {
+					hasBest[p] = vfBool("peer.hasTheBestValue")
+				}
+			}
+			if dead[p] {
+				return nil, errors.New("rpc failed")
+			}
+			answered[p] = true
+			resp := pb.NewMessage(pb.Message_GET_VALUE, req.Key, 0)
+			rank := byte(1)
+			if hasBest[p] {
+				rank = 9
+			}
+			resp.Record = &recpb.Record{Key: []byte(key), Value: []byte{1, rank}}
+			for _, q := range ids { // every live peer knows the whole network
+				resp.CloserPeers = append(resp.CloserPeers, &pb.Message_Peer{Id: []byte(q), Addrs: [][]byte{vfAddr(60).Bytes()}})
+			}
+			return resp, nil
+		case pb.Message_PUT_VALUE:
+			puts[p]++
+			if dead[p] {
+				return nil, errors.New("rpc failed")
+			}
+			return req, nil
+		}
+		return nil, errors.New("unexpected request")
+	}
+	ch, err := d.SearchValue(ctx, key, Quorum(0))
+	vfAssert(err == nil, "search/starts")
+	for range ch {
+	}
+	vfAdvance(time.Second)
+	vfWaitIdle()
+	A, B, got := 0, 0, 0
+	anyBest := false
+	for _, p := range ids {
+		vfAssert(puts[p] <= 1, "search/at-most-one-corrective-put-per-peer")
+		if answered[p] {
+			A++
+			if hasBest[p] {
+				B++
+				anyBest = true
+				vfAssert(puts[p] == 0, "search/peers-that-returned-the-best-value-are-not-corrected")
+			} else if puts[p] == 1 {
+				got++
+			}
+		}
+	}
+	if anyBest {
+		want := K
+		if A < K {
+			want = A
+		}
+		vfAssert(got >= want-B, "search/a-dead-peer-does-not-use-up-the-corrective-put-of-a-live-one")
+	}
+	vfAssert(vfLiveGoroutines() == 1, "search/no-goroutine-left-behind")
+	vfReach("correctiveputs/end")
+}
+
+var _ = vfRegister("VfCorrectivePuts", VfCorrectivePuts)
